@@ -90,3 +90,53 @@ func indexByte(s string, c byte) int {
 	}
 	return -1
 }
+
+// LookupIP / LookupHost go through the same scripted resolver (each call is one
+// lookup as far as the script is concerned).
+func LookupIP(host string) ([]net.IP, error) {
+	if ResolveHook != nil && net.ParseIP(host) == nil {
+		a, err := ResolveHook("ip", host)
+		if err != nil {
+			return nil, err
+		}
+		return []net.IP{a.IP}, nil
+	}
+	return net.LookupIP(host)
+}
+
+func LookupHost(host string) ([]string, error) {
+	if ResolveHook != nil && net.ParseIP(host) == nil {
+		a, err := ResolveHook("ip", host)
+		if err != nil {
+			return nil, err
+		}
+		return []string{a.IP.String()}, nil
+	}
+	return net.LookupHost(host)
+}
+
+var (
+	DefaultResolver = net.DefaultResolver
+	LookupAddr      = net.LookupAddr
+	LookupCNAME     = net.LookupCNAME
+	DialTimeout     = net.DialTimeout
+	ListenPacket    = net.ListenPacket
+	ListenUDP       = net.ListenUDP
+	DialUDP         = net.DialUDP
+	DialTCP         = net.DialTCP
+	InterfaceAddrs  = net.InterfaceAddrs
+	ParseMAC        = net.ParseMAC
+	LookupPort      = net.LookupPort
+)
+
+type (
+	Resolver            = net.Resolver
+	UnknownNetworkError = net.UnknownNetworkError
+	InvalidAddrError    = net.InvalidAddrError
+	ParseError          = net.ParseError
+	UnixAddr            = net.UnixAddr
+	UnixConn            = net.UnixConn
+	Flags               = net.Flags
+	ListenConfig        = net.ListenConfig
+	Buffers             = net.Buffers
+)
